@@ -24,9 +24,11 @@ import (
 	"math/rand"
 	"os"
 	"path/filepath"
+	"runtime"
 	"runtime/debug"
 	"strconv"
 	"strings"
+	"sync"
 	"testing"
 	"time"
 
@@ -298,6 +300,183 @@ func vfEvalEncode(v *vfVal) (map[string]interface{}, map[string]interface{}) {
 	s["digestH2"] = bytes.Equal(dg, vfKeccak2(body))
 	s["digest"] = hex.EncodeToString(dg)
 	return a, s
+}
+
+// ---- several values in flight (C04: determinism / injectivity are statements about values that exist at the same time)
+//
+// The evaluations are the same as vfEvalEncode; what differs is WHEN the results are looked at (the parameter
+// a.mode of the Encode action):
+//   retained   : a batch of values; the slice returned by SerializeBody of each value is HELD (not copied) while the
+//                following values of the batch are serialized / marshalled / hashed; only then are its bytes logged and
+//                the digest compared with the double hash of the retained bytes.
+//   nested     : the payload of the value IS the slice SerializeBody returned for another message (no copy).
+//   concurrent : k goroutines each serialize / marshal / hash their own value repeatedly, holding the returned body
+//                across a scheduling point; every distinct outcome a goroutine saw is logged.
+// The model decides each value separately, exactly as for a single evaluation.
+
+type vfHeld struct {
+	v             *vfVal
+	body, msh, dg []byte
+	panicked      string
+}
+
+func (h *vfHeld) line(mode string, extra map[string]interface{}) (map[string]interface{}, map[string]interface{}) {
+	a := map[string]interface{}{"v": vfValToMap(h.v), "subsec": h.v.Subsec, "mode": mode}
+	for k, x := range extra {
+		a[k] = x
+	}
+	s := map[string]interface{}{}
+	if h.panicked != "" {
+		s["panic"] = h.panicked
+		return a, s
+	}
+	s["body"] = vfInts(h.body) // read NOW, after everything else of the batch ran
+	s["marshal"] = vfInts(h.msh)
+	s["digestH2"] = bytes.Equal(h.dg, vfKeccak2(h.body))
+	s["digest"] = hex.EncodeToString(h.dg)
+	return a, s
+}
+
+func vfHold(v *vfVal, g *vaa.VAA) *vfHeld {
+	h := &vfHeld{v: v}
+	h.panicked = vfCatch(func() {
+		h.body = g.SerializeBody() // kept as returned
+		var err error
+		h.msh, err = g.Marshal()
+		if err != nil {
+			panic("Marshal returned an error: " + err.Error())
+		}
+		h.dg = g.SigningMsg().Bytes()
+	})
+	return h
+}
+
+// vfEvalEncodeRetained: serialize all values of the batch first, look at the results afterwards.
+func vfEvalEncodeRetained(vals []*vfVal, emit func(a, s map[string]interface{})) {
+	held := make([]*vfHeld, len(vals))
+	for i, v := range vals {
+		held[i] = vfHold(v, vfToGo(v))
+	}
+	for i, h := range held {
+		emit(h.line("retained", map[string]interface{}{"batch": len(vals), "pos": i}))
+	}
+}
+
+// vfEvalEncodeNested: v2 carries, as its payload, the very slice that SerializeBody(v1) returned.  The abstract payload
+// of v2 is the signing body of v1 as the harness's own serializer gives it.
+func vfEvalEncodeNested(v1, v2 *vfVal, emit func(a, s map[string]interface{})) {
+	g1 := vfToGo(v1)
+	own := (&vhVAA{Ts: uint32(g1.Timestamp.Unix()), Nonce: g1.Nonce, EChain: uint16(g1.EmitterChain), TChain: uint16(g1.TargetChain),
+		Emitter: g1.EmitterAddress, Seq: g1.Sequence, CL: g1.ConsistencyLevel, Payload: g1.Payload}).Body()
+	abs := *v2
+	abs.Payload = vfBytes(own)
+	g2 := vfToGo(&abs)
+	var h *vfHeld
+	if p := vfCatch(func() { g2.Payload = g1.SerializeBody() }); p != "" {
+		h = &vfHeld{v: &abs, panicked: p}
+	} else {
+		h = vfHold(&abs, g2)
+	}
+	emit(h.line("nested", nil))
+}
+
+// vfEvalEncodeConcurrent: one goroutine per value, `iters` rounds each.
+func vfEvalEncodeConcurrent(vals []*vfVal, iters int, emit func(a, s map[string]interface{})) {
+	type outcome struct{ body, msh, dg []byte }
+	res := make([][]outcome, len(vals))
+	pan := make([]string, len(vals))
+	var wg sync.WaitGroup
+	start := make(chan struct{})
+	for i := range vals {
+		wg.Add(1)
+		go func(i int) {
+			defer wg.Done()
+			g := vfToGo(vals[i])
+			seen := map[string]bool{}
+			<-start
+			pan[i] = vfCatch(func() {
+				for it := 0; it < iters; it++ {
+					body := g.SerializeBody()
+					runtime.Gosched() // the body is in use while other goroutines serialize theirs
+					o := outcome{body: append([]byte{}, body...)}
+					var err error
+					if o.msh, err = g.Marshal(); err != nil {
+						panic("Marshal returned an error: " + err.Error())
+					}
+					o.dg = g.SigningMsg().Bytes()
+					k := string(o.body) + "|" + string(o.msh) + "|" + string(o.dg)
+					if !seen[k] && len(res[i]) < 4 {
+						seen[k] = true
+						res[i] = append(res[i], o)
+					}
+				}
+			})
+		}(i)
+	}
+	close(start)
+	wg.Wait()
+	for i, v := range vals {
+		if pan[i] != "" {
+			emit((&vfHeld{v: v, panicked: pan[i]}).line("concurrent", nil))
+			continue
+		}
+		for _, o := range res[i] {
+			h := &vfHeld{v: v, body: o.body, msh: o.msh, dg: o.dg}
+			emit(h.line("concurrent", map[string]interface{}{"goroutines": len(vals), "iters": iters, "outcomes": len(res[i])}))
+		}
+	}
+}
+
+// vfValFromBody reads a signing body back into a value with the layout tables TLC exported (replay of nested cases).
+func vfValFromBody(b []byte) *vfVal {
+	lay := &vfT.Layout
+	v := &vfVal{Version: vfBytes{byte(lay.Version)}, GuardianSetIndex: vfBytes{0, 0, 0, 0}}
+	if len(b) < lay.BodyFixed {
+		return nil
+	}
+	get := func(name string) vfBytes {
+		for _, f := range lay.Body {
+			if f.Name == name {
+				return vfBytes(append([]byte{}, b[f.Offset:f.Offset+f.Width]...))
+			}
+		}
+		return nil
+	}
+	v.Timestamp, v.Nonce, v.EmitterChain, v.TargetChain = get("timestamp"), get("nonce"), get("emitterChain"), get("targetChain")
+	v.EmitterAddress, v.Sequence, v.ConsistencyLevel = get("emitterAddress"), get("sequence"), get("consistencyLevel")
+	v.Payload = vfBytes(append([]byte{}, b[lay.PayloadOffset:]...))
+	return v
+}
+
+// vfNeighbour: the same value with one body field changed (so that a batch holds messages that differ in one field).
+func vfNeighbour(v *vfVal, k int) *vfVal {
+	n := *v
+	flip := func(b vfBytes) vfBytes {
+		c := append(vfBytes{}, b...)
+		if len(c) > 0 {
+			c[len(c)-1] ^= 0x01
+		}
+		return c
+	}
+	switch k % 8 {
+	case 0:
+		n.Timestamp = flip(v.Timestamp)
+	case 1:
+		n.Nonce = flip(v.Nonce)
+	case 2:
+		n.EmitterChain = flip(v.EmitterChain)
+	case 3:
+		n.TargetChain = flip(v.TargetChain)
+	case 4:
+		n.EmitterAddress = flip(v.EmitterAddress)
+	case 5:
+		n.Sequence = flip(v.Sequence)
+	case 6:
+		n.ConsistencyLevel = flip(v.ConsistencyLevel)
+	case 7:
+		n.Payload = append(append(vfBytes{}, v.Payload...), 0x33)
+	}
+	return &n
 }
 
 type vfDecoded struct {
@@ -879,6 +1058,7 @@ func TestVerifFmtVectors(t *testing.T) {
 	seed := os.Getenv("VERIF_SEED")
 	worlds := []*vfSigWorld{vfNewSigWorld(seed, 0), vfNewSigWorld(seed, 1), vfNewSigWorld(seed, 2)}
 	var procVecs []vfVector
+	var batch []*vfVal
 	for i := range vecs {
 		vc := &vecs[i]
 		switch vc.Kind {
@@ -914,6 +1094,26 @@ func TestVerifFmtVectors(t *testing.T) {
 			}
 			tr.Emit(1, "Encode", vfTag(a, vc), s)
 			procVecs = append(procVecs, *vc)
+			// several values in flight: this value, its predecessors of the enumeration and one-field neighbours are all
+			// serialized before any result is looked at; every 8th value also travels as the payload of another message
+			batch = append(batch, m)
+			if len(batch) == 4 {
+				all := append([]*vfVal{}, batch...)
+				for k, b := range batch {
+					all = append(all, vfNeighbour(b, vc.ID+k))
+				}
+				vfEvalEncodeRetained(all, func(a, s map[string]interface{}) {
+					a["src"] = "vec-retained"
+					tr.Emit(1, "Encode", a, s)
+				})
+				batch = batch[:0]
+			}
+			if vc.ID%8 == 3 {
+				vfEvalEncodeNested(m, vfMerge(vc.V, &vfT.Headers[(vc.ID+7)%len(vfT.Headers)]), func(a, s map[string]interface{}) {
+					a["src"] = "vec-nested"
+					tr.Emit(1, "Encode", a, s)
+				})
+			}
 			// two-step history on this value: digest, change one field (rotating over all fields), digest again
 			{
 				a, s := vfEvalRedigest(m, vfMutations[vc.ID%len(vfMutations)], (vc.ID/len(vfMutations))%2 == 1)
@@ -955,6 +1155,34 @@ func TestVerifFmtVectors(t *testing.T) {
 					a["src"] = "vec-reverify"
 					tr.Emit(1, "ExplorerVerify", a, s)
 				}
+			}
+		case "C04B": // replay of a several-values-in-flight evaluation of one value
+			emitB := func(a, s map[string]interface{}) {
+				if a["pos"] == nil || a["pos"].(int) == 0 {
+					tr.Emit(1, "Encode", vfTag(a, vc), s)
+				}
+			}
+			switch vc.Mode {
+			case "nested":
+				if v1 := vfValFromBody(vc.V.Payload); v1 != nil {
+					vfEvalEncodeNested(v1, vc.V, emitB)
+				}
+			case "concurrent":
+				vals := []*vfVal{vc.V}
+				for k := 0; k < 7; k++ {
+					vals = append(vals, vfNeighbour(vc.V, k))
+				}
+				vfEvalEncodeConcurrent(vals, 300, func(a, s map[string]interface{}) {
+					if fmt.Sprint(a["v"]) == fmt.Sprint(vfValToMap(vc.V)) {
+						tr.Emit(1, "Encode", vfTag(a, vc), s)
+					}
+				})
+			default:
+				vals := []*vfVal{vc.V}
+				for k := 0; k < 8; k++ {
+					vals = append(vals, vfNeighbour(vc.V, k))
+				}
+				vfEvalEncodeRetained(vals, emitB)
 			}
 		case "C04R": // replay of a two-step digest history
 			a, s := vfEvalRedigest(vc.V, vc.Field, vc.Mode == "copy")
@@ -1133,6 +1361,24 @@ func TestVerifFmtTrace(t *testing.T) {
 					vfEmitDecodeAuto(tr, b, "gen-roundtrip")
 				}
 			}
+			// several values in flight: batches whose results are looked at only after the whole batch ran, and values
+			// that travel as the payload of another message
+			for i := 0; i < N/10+2; i++ {
+				base := vfRandVal(r, vfPick(r, 0, 1, 2), r.Intn(120))
+				vals := []*vfVal{base}
+				for k := 0; k < 8; k++ {
+					vals = append(vals, vfNeighbour(base, k))
+				}
+				vals = append(vals, vfRandVal(r, 0, vfPick(r, 0, 1, 500, 1500)), vfRandVal(r, 1, r.Intn(60)))
+				vfEvalEncodeRetained(vals, func(a, s map[string]interface{}) {
+					a["src"] = "gen-retained"
+					tr.Emit(2, "Encode", a, s)
+				})
+				vfEvalEncodeNested(base, vfRandVal(r, vfPick(r, 0, 1), 0), func(a, s map[string]interface{}) {
+					a["src"] = "gen-nested"
+					tr.Emit(2, "Encode", a, s)
+				})
+			}
 			// payload lengths at integer-width boundaries (full values: TLC recomputes body and encoding)
 			bl := []int{255, 256, 257, 65536}
 			if N >= 1000 {
@@ -1151,6 +1397,22 @@ func TestVerifFmtTrace(t *testing.T) {
 					}
 					vfEmitDecodeAuto(tr, b, "gen-roundtrip-boundary")
 				}
+			}
+		case "concurrent": // C04: goroutines serializing / hashing their own values at the same time (run under -race when available)
+			rounds := N/100 + 2
+			for i := 0; i < rounds; i++ {
+				base := vfRandVal(r, vfPick(r, 0, 1), r.Intn(200))
+				vals := []*vfVal{base}
+				for k := 0; k < 8; k++ {
+					vals = append(vals, vfNeighbour(base, k))
+				}
+				for k := 0; k < 7; k++ {
+					vals = append(vals, vfRandVal(r, vfPick(r, 0, 1, 2), r.Intn(300)))
+				}
+				vfEvalEncodeConcurrent(vals, 200, func(a, s map[string]interface{}) {
+					a["src"] = "gen-concurrent"
+					tr.Emit(2, "Encode", a, s)
+				})
 			}
 		case "procbody": // C04: random messages through the processor's handleMessage (two guardians each)
 			if vfProcBodyFn == nil {
